@@ -844,7 +844,54 @@ def b12(chk, tab):
     chk.floor("B12", 12)
 
 
+def b13(chk):
+    """A thrust arc is written by its ignition date and read back as `date_pos="start"`: on the writer side every function
+    that distinguishes continuous maneuvers reads `.start` of a ContinuousMan and never its anchor `.date` (which is the
+    middle or the end of the arc for date_pos="median" / "stop")."""
+    OPMF = CC + "opm.py"
+    m = chk.repo.module(OPMF)
+    n_w = 0
+    for f in m.all_funcs():
+        tests = [n for n in ast.walk(f.node) if isinstance(n, ast.Call) and call_name(n) == "isinstance" and len(n.args) == 2
+                 and unparse(n.args[1]).split(".")[-1] == "ContinuousMan"]
+        if not tests or f.name.startswith("_loads") or f.name == "loads":
+            continue
+        var = unparse(tests[0].args[0])
+        par = parent_map(f.node)
+
+        def arm_of(node):
+            """'cont' / 'imp' / None: inside which arm of an isinstance(var, ContinuousMan) test the node sits."""
+            cur = node
+            while cur in par:
+                p = par[cur]
+                if isinstance(p, (ast.If, ast.IfExp)) and any(t is p.test or t in list(ast.walk(p.test)) for t in tests):
+                    neg = isinstance(p.test, ast.UnaryOp) and isinstance(p.test.op, ast.Not)
+                    body = p.body if isinstance(p.body, list) else [p.body]
+                    inbody = any(cur is b or cur in list(ast.walk(b)) for b in body)
+                    if cur is not p.test and not (cur in list(ast.walk(p.test))):
+                        return ("imp" if inbody else "cont") if neg else ("cont" if inbody else "imp")
+                cur = p
+            return None
+        reads_date = [n for n in ast.walk(f.node) if isinstance(n, ast.Attribute) and n.attr == "date" and unparse(n.value) == var and isinstance(n.ctx, ast.Load)]
+        reads_start = [n for n in ast.walk(f.node) if isinstance(n, ast.Attribute) and n.attr == "start" and unparse(n.value) == var]
+        bad = [n for n in reads_date if arm_of(n) != "imp"]
+        ok = bool(reads_start) and all(arm_of(n) == "cont" for n in reads_start) and not bad
+        n_w += 1
+        chk.inst("B13", f"{f.ref}::ignition-epoch", ok, f"continuous maneuvers are written by `{var}.start`, impulsive ones by `{var}.date`" if ok else
+                 f"`{var}.date` is read for a ContinuousMan (or `{var}.start` is not): for date_pos='median' / 'stop' the written ignition epoch is the "
+                 "middle / end of the arc, and the reader (date_pos='start') shifts the burn", loc(f, (bad or reads_date or tests)[0]))
+    if n_w < 1:
+        raise AnalysisError("B13: no OPM writer function distinguishes continuous maneuvers")
+    for fn in ("_loads_kvn", "_loads_xml"):
+        f = chk.repo.func(OPMF, fn)
+        ctor = [n for n in ast.walk(f.node) if isinstance(n, ast.Call) and call_name(n) == "ContinuousMan"]
+        ok = len(ctor) >= 1 and all(const_value(kwarg(c, "date_pos")) == "start" for c in ctor)
+        chk.inst("B13", f"{f.ref}::read-as-start", ok, "the arc is rebuilt from its ignition date (date_pos='start')" if ok else "ContinuousMan no longer built with date_pos='start'", loc(f, f.node))
+    chk.floor("B13", 3)
+
+
 def run(chk):
+    chk.rule("B13", "a thrust arc is written by its ignition date (.start) and read back with date_pos='start'")
     chk.rule("B11", "numbered / ordered components agree between both encodings and their readers")
     chk.rule("B12", "KVN and XML tokenisers (shape frozen by reading)")
     chk.rule("B10", "line-oriented readers create their per-record accumulators where the record starts")
@@ -871,5 +918,6 @@ def run(chk):
     chk.guard(b10, chk, tab)
     chk.guard(b11, chk, tab)
     chk.guard(b12, chk, tab)
+    chk.guard(b13, chk)
     chk.assume("informational keys (header, markers, redundant osculating elements, START/STOP_TIME, GM, MAN_DELTA_MASS) need not round-trip; table in c13.py with reasons")
     chk.assume("rule C for dates under a TIME_SYSTEM is decided under C04")
